@@ -175,3 +175,31 @@ let run (_prop : string) (inp : Sx.t) (obs : Sx.t) : outcome =
     nontrivial = List.exists (function RgBGroup (_, _, g) -> g <> [] | _ -> false) c.body }
 
 let () = register "groups" run
+
+(* Reads through a template in which one tag occurs twice at the same level are outside C13's hypotheses (ill-formed
+   template): they are generated for totality (C09).  What the nested views show there depends on which of the two items
+   an implementation consults first, so for such cases the correspondence is checked on the status of every read (and on
+   the built bytes and plain fields), not on the rows. *)
+let rec tmpl_has_dup (t : rg_item list) : bool =
+  let tags = List.map (function RgElem x -> x | RgGrp (x, _) -> x) t in
+  let rec dup = function [] -> false | x :: r -> List.mem x r || dup r in
+  dup tags || List.exists (function RgGrp (_, s) -> tmpl_has_dup s | RgElem _ -> false) t
+
+let project (_prop : ostring) (inp : Sx.t) (obs : Sx.t) : Sx.t =
+  let c = try Some (case_sx inp) with _ -> None in
+  match c with
+  | Some c when List.exists (fun (_, tm) -> tmpl_has_dup tm) c.reads ->
+      let coarsen_group = function
+        | Sx.L [has; Sx.L (Sx.A "ok" :: _)] -> Sx.L [has; Sx.A "ok"]
+        | x -> x in
+      let coarsen_side = function
+        | Sx.L [Sx.A "ok"; Sx.L [Sx.L (Sx.A "groups" :: gs); fields]] ->
+            Sx.L [Sx.A "ok"; Sx.L [Sx.L (Sx.A "groups" :: List.map coarsen_group gs); fields]]
+        | x -> x in
+      (match obs with
+       | Sx.L [Sx.A "obs"; built; Sx.L [Sx.A "nodict"; n]; Sx.L [Sx.A "dict"; d]] ->
+           Sx.L [Sx.A "obs"; built; Sx.L [Sx.A "nodict"; coarsen_side n]; Sx.L [Sx.A "dict"; coarsen_side d]]
+       | x -> x)
+  | _ -> obs
+
+let () = register_projection "groups" project
